@@ -24,6 +24,7 @@ from sa.symex import Interp, flat_guards
 
 RULES = {
     "R-C06-o": "collapsed: the decision structure of the algorithm - entries are gathered per (mapped) value except the new common value; the output starts as precedence[-1] and is overwritten from the lowest to the highest precedence; a per-row counter of columns not yet explained (initially the number of columns, decremented for the last precedence and for every value written while the common value has not been written yet) decides which rows take the common value when its turn comes",
+    "R-C06-q": "filtered / reindexed / collapsed / copy / sliced / column_stack return a new index on every path, never the receiver or an argument (documented exception: sliced() without orders)",
     "R-C06-p": "small schemas the other operations rest on: set_if pops the key for a None / empty value and stores otherwise; filtered renumbers through a scatter of arange(new_length) and builds shape (new_length,) + shape[1:]; sliced starts its shape and coordinates with the row extent / the value; the default mapping of reindexed ranks the listed VALUES (first coordinates)",
     "R-C06-n": "forced views: get(key, force=True) of a common-valued key returns common_rowids(<the key's own column>), and items(force=True) appends ((common,), common_rowids()) for a 1-D index or ((common, c), common_rowids(c)) for EVERY column c of a 2-D one, after the explicit entries",
     "R-C06-m": "an optional parameter that holds a category value or a column number (new_common, common, colindex) is tested with `is None`, never by truthiness: 0 is a legal - and the most usual - value",
@@ -294,6 +295,38 @@ def rule_n(prog, rep):
         why = "columns enumerated by %s; rows from common_rowids(%s) under key column %s" % (it is not None and tm.show(it)[:30], v.op == "call" and [tm.show(a)[:20] for a in v.args[1]], tm.show(col)[:20])
     rep.check(ok2, "R-C06-n", fi.fq, "items(force), 2-D: ((common, c), common_rowids(c)) for every column c in range(shape[1])", "", why,
               witness={"inputs": "2-D index: to_dict(force=True) misses the common rows of a column / reports another column's rows"})
+
+
+NEW_INDEX_METHODS = ("iindex.filtered", "iindex.reindexed", "iindex.collapsed", "iindex.copy", "iindex.sliced", "column_stack")
+# a return of the receiver that is outside the property's quantifier, with the reason
+ALIAS_EXCEPTIONS = {("iindex.sliced", "no orders"): "sliced() without any order returns the receiver; C06 quantifies over sliced(<one order per axis>), where a new index is built"}
+
+
+def rule_q(prog, rep):
+    """Operations that hand back an index build a NEW one on every path: returning the receiver (or an argument) makes a
+    later in-place operation on the result rewrite the source - `operands other than the receiver are left unchanged`."""
+    n = 0
+    for qual in NEW_INDEX_METHODS:
+        fi = prog.func("iindexes", qual)
+        I = Interp(prog, hints.param_types_for("iindexes"), hints.FIELD_TYPES, inline=False)
+        fr = I.run(fi)
+        params = [tm.param(p) for p in fi.params()]
+        for v, g in fr.returns:
+            n += 1
+            alias = [p for p in params if any(a == p for a in tm.alts(v))]
+            w = fi.fq
+            cons = "%s returns a new index on every path" % qual.split(".")[-1]
+            if not alias:
+                rep.proved("R-C06-q", w, cons, "returns %s" % tm.show(v)[:50])
+                continue
+            fl = flat_guards(g)
+            if qual == "iindex.sliced" and any((not pol) and c.op == "param" and c.args[0].startswith("*") for c, pol in fl):
+                rep.proved("R-C06-q", w, cons + " (documented exception)", ALIAS_EXCEPTIONS[("iindex.sliced", "no orders")])
+                continue
+            rep.violated("R-C06-q", w, cons, "on the path [%s] the %s itself is returned: an update / append / difference_update on the result rewrites the source index"
+                         % (", ".join("%s%s" % ("" if pol else "not ", tm.show(c)[:40]) for c, pol in fl) or "always", "receiver" if alias[0] == tm.param("self") else "argument %s" % tm.show(alias[0])),
+                         witness={"history": "b = a.%s(<arguments that take this path>); b.update({...}); a has changed" % qual.split(".")[-1]})
+    rep.floor("R-C06-q", 8, n)
 
 
 def rule_p(prog, rep):
@@ -1010,6 +1043,7 @@ def main(tier):
     rule_m(prog, rep)
     rule_n(prog, rep)
     rule_p(prog, rep)
+    rule_q(prog, rep)
     rule_o(prog, rep)
     import c07
     sub7 = core.Report("C07", level="other", rules=c07.RULES, tier=tier)
